@@ -486,21 +486,21 @@ func (l *link) chkHdr(dir int, id uint32, m *mangos.Message) string {
 	switch l.k.name {
 	case "xpair1", "xstar":
 		if !bytes.Equal(m.Header, []byte{0, 0, 0, 1}) {
-			return fmt.Sprintf("header % x, expected 00 00 00 01 (one hop)", m.Header)
+			return fmt.Sprintf("header [% x], expected [00 00 00 01] (one hop)", m.Header)
 		}
 	case "xreqxrep", "xsurvey":
 		want := be32(id | 0x80000000)
 		if dir == 0 {
 			if len(m.Header) != 8 || !bytes.Equal(m.Header[4:], want) {
-				return fmt.Sprintf("header % x, expected <pipe id> % x", m.Header, want)
+				return fmt.Sprintf("header [% x], expected [<4 byte pipe id> % x]", m.Header, want)
 			}
 			l.bt = append([]byte{}, m.Header...)
 		} else if !bytes.Equal(m.Header, want) {
-			return fmt.Sprintf("header % x, expected % x", m.Header, want)
+			return fmt.Sprintf("header [% x], expected [% x]", m.Header, want)
 		}
 	case "xbus":
 		if len(m.Header) != 4 {
-			return fmt.Sprintf("header % x, expected a 4 byte pipe id", m.Header)
+			return fmt.Sprintf("header [% x], expected a 4 byte pipe id", m.Header)
 		}
 	}
 	return ""
@@ -973,7 +973,7 @@ func (c *cell) addOver(dir int, sizes []int, keys ...string) {
 
 func classKey(n int) string {
 	for _, k := range poolClasses {
-		if n >= k-2 && n <= k+2 {
+		if n >= k-6 && n <= k+2 {
 			return fmt.Sprintf("class%d", k)
 		}
 	}
@@ -1009,15 +1009,22 @@ func execute(st *ekit.Stats, c *cell) {
 			st.Cap(fmt.Sprintf("cell %s/%s/%s: %s", c.scen, c.t.name, c.k.name, f.msg))
 			break
 		}
-		// replay the cell up to and including the failing batch on fresh sockets, 3x
-		repro := 0
-		var dummy runStats
+		// replay the same run of batches (from where this link started, up to and
+		// including the failing batch) three times, each on fresh sockets
+		var repro int32
+		var rwg sync.WaitGroup
 		for i := 0; i < 3; i++ {
-			g := runCell(c, 0, f.batch+1, &dummy)
-			if g != nil && g.batch == f.batch && g.kind == f.kind {
-				repro++
-			}
+			rwg.Add(1)
+			go func() {
+				defer rwg.Done()
+				var dummy runStats
+				g := runCell(c, from, f.batch+1, &dummy)
+				if g != nil && g.batch == f.batch && g.kind == f.kind {
+					atomic.AddInt32(&repro, 1)
+				}
+			}()
 		}
+		rwg.Wait()
 		sig := fmt.Sprintf("c01-%s:%s:%s", f.kind, c.t.name, c.k.name)
 		vk := "fail"
 		if f.timeout {
@@ -1096,7 +1103,9 @@ func eachCell(scen string, limit int, ts []*tran, ks []*kind, f func(c *cell)) [
 func boundaryGroups() [][]int {
 	g := [][]int{{0, 1, 2, 3}}
 	for _, k := range poolClasses {
-		g = append(g, []int{k - 2, k - 1, k, k + 1, k + 2})
+		// k-2..k+2 for the body, and the same for body+4 (patterns with a 4 byte
+		// protocol header: the receiving transport allocates for header+body)
+		g = append(g, []int{k - 6, k - 5, k - 4, k - 3, k - 2, k - 1, k, k + 1, k + 2})
 	}
 	return g
 }
@@ -1107,7 +1116,7 @@ func scenBoundary(st *ekit.Stats, tier string) {
 			for gi, g := range boundaryGroups() {
 				key := "small"
 				if gi > 0 {
-					key = classKey(g[2])
+					key = classKey(g[len(g)-1])
 				}
 				c.add(d, g, -1, len(g), fmt.Sprintf("dir%d/%s", d, key))
 			}
@@ -1150,11 +1159,23 @@ func scenEveryLength(st *ekit.Stats, tier string) {
 	runCells(st, cells)
 }
 
+// alphabet of the ordered pairs / triples: the stated body lengths, plus, for
+// patterns with a 4 byte wire header, the body lengths whose header+body total is a
+// pool class size.
+func (k *kind) alphabet() []int {
+	a := append([]int{}, pairAlphabet...)
+	if k.wire > 0 {
+		a = append(a, 64-k.wire, 128-k.wire, 1024-k.wire, 4096-k.wire)
+		sort.Ints(a)
+	}
+	return a
+}
+
 func scenPairs(st *ekit.Stats, tier string) {
 	cells := eachCell("ordered-pairs", 0, trans, kinds, func(c *cell) {
 		for _, d := range c.k.dirsForData() {
-			for _, a := range pairAlphabet {
-				for _, b := range pairAlphabet {
+			for _, a := range c.k.alphabet() {
+				for _, b := range c.k.alphabet() {
 					c.add(d, []int{a, b}, -1, 1, fmt.Sprintf("dir%d/%d-then-%d", d, a, b))
 				}
 			}
@@ -1170,9 +1191,9 @@ func scenTriples(st *ekit.Stats, tier string) {
 	}
 	cells := eachCell("ordered-triples", 0, trans, kinds, func(c *cell) {
 		for _, d := range c.k.dirsForData() {
-			for _, a := range pairAlphabet {
-				for _, b := range pairAlphabet {
-					for _, e := range pairAlphabet {
+			for _, a := range c.k.alphabet() {
+				for _, b := range c.k.alphabet() {
+					for _, e := range c.k.alphabet() {
 						c.add(d, []int{a, b, e}, -1, 1, fmt.Sprintf("dir%d/%d-%d-%d", d, a, b, e))
 					}
 				}
